@@ -3,7 +3,9 @@
 import json
 ids = [json.loads(l)["id"] for l in open("/verif/properties.jsonl")]
 TB = ("Trusted: Lean 4.33 kernel (propext, Classical.choice, Quot.sound only); Spec/*.lean transcriptions; the Go translator "
-      "and correspondence harness; dependencies answered as oracles (Go crypto/x509/asn1/json/url, go-tpm, go-jose, uuid). "
+      "and correspondence harness; dependencies answered as oracles (Go crypto, crypto/x509, go-tpm, go-jose; the SAN/RDN parse by encoding/asn1); "
+      "encoding/asn1 (key description, Apple nonce, AAGUID extension), encoding/json (client data), net/url (host extraction), base64, uuid and "
+      "fxamacker/cbor are Lean MODELS of the installed versions, tied to those packages by differential execution, not by translation of their source. "
       "The theorems are about the Lean model; the model is tied to /repo by regenerated tables (translator) and by "
       "differential execution (harness) on every run.")
 claimed = {
@@ -67,12 +69,14 @@ claimed = {
  "C13": dict(
    text="Lean theorems: the label walk accepts exactly when the RP host is non-empty and the client host equals it or ends with '.'+RP host, for ALL byte strings "
         "(labelWalk_iff), the Go loop transcription on fuel computes the same, parent / no-boundary-suffix / prefix-label cases are rejected; at ceremony level the "
-        "origin test is equivalent to that condition on the hosts the URL parser reports, only those hosts matter (scheme, port irrelevant), unparsable and host-less "
+        "origin test is equivalent to that condition on the hosts Url.hostOf (the model of url.Parse(..).Hostname()) reports, only those hosts matter (scheme, port irrelevant), unparsable and host-less "
         "origins are rejected, the RP ID is the host of the configured origin, and both ceremonies accept only authenticator data whose RP ID hash is SHA-256 of "
         "exactly that RP ID. Tie: ceremonies whose only variable is the origin / hashed RP ID, exhaustive label sequences, placements of the RP host inside foreign "
         "URLs with ground truth, random strings.",
    ref="DESIGN.md §8 C13", technique="Lean 4 proof (label walk iff over all strings) + differential execution through real ceremonies",
-   note="PARTIAL in one respect: host extraction is net/url's (oracle); its behaviour on user-info/path/query/fragment placements is exercised, not proved."),
+   note="Host extraction is a Lean model of net/url (Model/Url.lean) tied to net/url by correspondence (2 million cases in the thorough tier); C13Url.hostOf_render proves that a URL "
+        "rendered from well-formed components reports exactly its host component whatever stands in user-info, port, path, query and fragment, and hostOf_no_delimiters that a reported host "
+        "never contains / ? # @ or a backslash."),
  "C15": dict(
    text="Lean theorems: UnmarshalMetadataBLOBPayload (model) returns a payload iff the BLOB parses with at least one header, EVERY header's chain validates against "
         "the CONFIGURED pool (default = embedded root; the last WithRootCA wins) and the claims verify under the leaf of the first chain, the payload being the one so "
@@ -86,11 +90,16 @@ claimed = {
         "vendor table is the reviewed one and a subset of the TCG registry plus the documented pseudo vendor; hardware details are extracted iff every string-valued "
         "manufacturer attribute parses to a registered vendor and the last manufacturer / model / version attributes exist with non-empty model and version, returning "
         "those values (hardwareDetails_iff); only the first context-specific [4] general name counts and the class matters; the Keymaster struct tags are pinned, all "
-        "their tag numbers occur in the published schema, and purpose / allApplications / origin are 1 / 600 / 702. Tie: vendor table, OIDs, constants and struct "
-        "tags regenerated from source; differential execution on exhaustive short strings, sampled ids, certificates with all attribute subsets/orders; key "
-        "descriptions from an independent DER encoder.",
-   ref="DESIGN.md §8 C17", technique="Lean 4 proof over regenerated tables + differential execution; KeyDescription decoding compared with ground truth",
-   note="PARTIAL: the ASN.1 layer is encoding/asn1 (oracle). Known finding D14 (NULL-typed Keymaster elements encoded as EXPLICIT NULL are not read) is listed in known_findings.json and reported as KNOWN-FINDING."),
+        "their tag numbers occur in the published schema, and purpose / allApplications / origin are 1 / 600 / 702. UnmarshalKeyDescription / Marshal are a Lean model "
+        "of encoding/asn1 (strict DER headers, the cursor algorithm over optional explicit members, INTEGER / ENUMERATED / BOOLEAN / OCTET STRING / SET OF) "
+        "instantiated with the struct schemas regenerated from android/key.go: the regenerated schema is the published tag table (authList_schema_published), "
+        "Unmarshal(Marshal v ++ rest) = (v, rest) for every well-formed key description (unmarshal_marshal), headers and integers are canonical, and the "
+        "NULL-typed-member defect D14 is a theorem about the model (explicit_null_not_read, authList_stalls_at_explicit_null, kernel-evaluated witnesses). "
+        "Tie: vendor table, OIDs, constants, struct schemas regenerated from source; differential execution on exhaustive short strings, sampled ids, "
+        "certificates with all attribute subsets/orders; key descriptions (valid, reordered, damaged, hand-written corner cases, random) from an independent DER "
+        "encoder against the real Unmarshal / Marshal, value by value.",
+   ref="DESIGN.md §8 C17, §0.2", technique="Lean 4 proof over regenerated tables and schemas (incl. ASN.1 codec round trip) + differential execution with ground truth",
+   note="PARTIAL: the SAN / RDN parse is encoding/asn1's (oracle). Known finding D14 (NULL-typed Keymaster elements encoded as EXPLICIT NULL are not read) is listed in known_findings.json and reported as KNOWN-FINDING."),
  "C02": dict(
    text="Lean theorems: the registration model decomposes into a storage-independent decision and a storage step (reg_decompose); the decision succeeds iff "
         "every ceremony condition of the property holds and then yields the ATTESTED credential id and key (regPre_iff against Spec.RegPreOK: client-data type / "
@@ -121,10 +130,12 @@ claimed = {
         "client-data type / challenge = unpadded base64url / origin host equal-or-subdomain, authenticator-data layout with SHA-256(RP ID), UP bit 0, UV bit 2 "
         "when required, signature under the stored key over authenticatorData || SHA-256(clientDataJSON) by the standard primitive of the key's algorithm); "
         "the record returned is the stored one; unknown ids yield the storage's own error; one corollary per violated condition; non-vacuity witness. "
+        "Client data is decoded by a Lean model of encoding/json (Model/Json.lean: RFC 8259 syntax with Go's depth limit, case-folded member matching, "
+        "last duplicate wins, type errors, unquoting with U+FFFD replacement), with C01Json.clientData_canonical for the documents clients write. "
         "Tie: constants regenerated from source; the compiled model is executed against the real ceremony on honest, single-deviation, combined and "
         "byte-mutated responses, comparing accept/reject, the returned record, the storage call log and storage contents; ground truth by construction is "
         "asserted separately.",
-   ref="DESIGN.md §8 C01", technique="Lean 4 proof (accept iff ten conditions, for all environments) + differential execution with oracle answers from the standard library"),
+   ref="DESIGN.md §8 C01", technique="Lean 4 proof (accept iff ten conditions, for all environments) + differential execution (crypto answered by the standard library; JSON and URL decided by the model)"),
  "C11": dict(
    text="Lean theorems about the model of the four COSE parsers: each type-specific parser accepts exactly when the struct-decoded members classify "
         "as a supported key under a declarative classifier transcribed from the standards (EC2 x {P-256,P-384,P-521} x {ES256,ES384,ES512}; OKP/Ed25519/32 "
